@@ -304,13 +304,25 @@ def all_configs():
     return out
 
 
+def _one_config_clean(cfg):
+    try:
+        return one_config(cfg)
+    finally:
+        from sympy.core.cache import clear_cache
+        clear_cache()
+        import gc
+        gc.collect()
+
+
 def build(tier="quick", seed=0):
     b = Bundle("C10")
     cfgs = QUICK if tier == "quick" else all_configs()
     ctx = mp.get_context("fork")
     from tpv.oblig import _die_with_parent
+    # the heaviest configurations first (cost grows with l_max^3 N^2 when the obliquity is on), sympy's caches cleared after each configuration (they reach GBs)
+    cfgs = sorted(cfgs, key=lambda c: -(c[0] ** 3 * c[1] ** 2 * (10 if c[2] else 1)))
     with ctx.Pool(min(16, len(cfgs)), initializer=_die_with_parent) as pool:
-        res = pool.map(one_config, cfgs, chunksize=1)
+        res = pool.map(_one_config_clean, cfgs, chunksize=1)
     for sub in res:
         b.extend(sub.obligations)
         b.functions.update(sub.functions)
